@@ -88,6 +88,42 @@ def check_cast(ctx, F, fn, label, poly):
               A.site(bb), how="calls after creation: size_of_val / panic machinery only", why="other calls: %s" % bad)
 
 
+def cast_rejects_exactly(ctx, F, rule):
+    """C15 allows cast to panic; the typed getters of C04 / C11 must answer every conformant tag.  On the polymorphic body: cast
+    diverges only (a) for a type whose BASE_SIZE is below the header size (a constant of the type), (b) inside T::dst_len (the
+    kind's own rejection of an undersized / ragged size: C05.L3x) and (c) when the typed view's size differs from the tag's.
+    Any other panic edge rejects a tag the getter should have returned."""
+    from .. import panic as P
+    polys = [f for k, f in F.fns.items() if f.get("impl_self_name") == "DynSizedStructure" and f.get("name") == "cast" and not f.get("impl_trait")]
+    if len(polys) != 1:
+        return ctx.fail("ANCHOR", "cast", "DynSizedStructure::cast exists", "", "%d" % len(polys))
+    A = an.of(F, polys[0])
+    bad, n = [], 0
+    for s in P.sites_of(F, polys[0]):
+        if s.status == "discharged" or s.kind in ("overflow", "unchecked"):
+            continue
+        n += 1
+        fs = [N(f) for f in A.g.facts_at(s.bb)]
+        if s.kind == "unknown" and str(s.what).endswith("MaybeDynSized::dst_len"):
+            continue
+        def allowed(f):
+            if f[0] == "or":
+                # reached over several ways (the error of a fallible `try_cast` matched afterwards): each way under an allowed condition
+                return all(any(allowed(x) for x in alt) for alt in f[1])
+            if f[0] != "cmp":
+                return False
+            sides = (f[2], f[3])
+            if f[1] in ("Lt", "Gt") and any(x[0] == "cs" and "BASE_SIZE" in str(x[1]) for x in sides) and any(x[0] in ("sizeof", "c") for x in sides):
+                return True
+            return f[1] == "Ne" and all(x[0] == "sizeofval" for x in sides) and any(x[1] == arg(1) for x in sides)
+        ok = any(allowed(f) for f in fs)
+        if not ok:
+            bad.append("%s %s under %s" % (s.kind, s.what, [G.show(f)[:80] for f in fs][:4]))
+    return ctx.check(not bad, rule, "cast:exact-rejection", "cast::<T>() diverges only for BASE_SIZE < header size, inside T::dst_len, or when the typed view's size "
+                     "differs from the tag's: a conformant tag of the requested type is returned, not rejected", A.site(),
+                     how="%d panic edge(s), each of one of the three kinds" % n, why="; ".join(bad)[:500])
+
+
 def const_base_ok(F, inst):
     g = inst.get("gargs", [])
     if len(g) < 2:
